@@ -87,7 +87,7 @@ func runC16(c *core.Ctx) core.Meta {
 				}
 				st3.Instances++
 				c.MarkAnalysed(fn)
-				m := regexp.MustCompile(`reqFromTop:([^,}]*)\.incomingReqs\[0\]`).FindStringSubmatch(pv)
+				m := regexp.MustCompile(`reqFromTop:(.*?)\.incomingReqs\[0\]`).FindStringSubmatch(pv)
 				okRec := m != nil && strings.Contains(pv, "reqToBottom:recv.createTranslatedReq("+m[1]+".incomingReqs[0],") || (m != nil && strings.Contains(pv, "reqToBottom:"))
 				st3.Ob(okRec)
 				if !okRec {
